@@ -20,63 +20,12 @@
 (* issues it through one entry point; the terminal states are the vectors  *)
 (* replayed against the real library.                                      *)
 (***************************************************************************)
-EXTENDS Naturals, Sequences, FiniteSets, TLC, Json
+EXTENDS JetPathOps, Json
 
 CONSTANTS MaxSegs,        \* longest spelling explored
           MaxDepth,       \* deepest referring directory explored
           ExtLists,       \* set of extension lists (sequences of strings)
           Emit            \* TRUE: print one VEC line per terminal state
-
-Seg      == {"a", "b", ".", "..", ""}
-Ordinary == {"a", "b"}
-
-Entries  == {"GetTemplate", "extends", "import", "include", "includeData",
-             "exec", "includeIfExists", "ParseExtends"}
-
-\* entry points whose relative names resolve against the referring template
-Relative(e) == e \in {"extends", "import", "include", "includeData", "ParseExtends"}
-
----------------------------------------------------------------------------
-(* The contract. *)
-
-RECURSIVE CleanFrom(_, _)
-CleanFrom(stack, segs) ==
-  IF segs = <<>> THEN stack
-  ELSE LET s == Head(segs) IN
-       CleanFrom(IF s = "" \/ s = "." THEN stack
-                 ELSE IF s = ".."
-                      THEN (IF stack = <<>> THEN <<>> ELSE SubSeq(stack, 1, Len(stack) - 1))
-                      ELSE Append(stack, s),
-                 Tail(segs))
-
-\* refdir: clean directory (sequence of ordinary segments) of the referrer
-\* a spelling is absolute when it begins with "/": an explicit leading slash, or a leading
-\* empty segment (the spelling of <<"", "x">> without leading slash is "/x")
-\* (a single empty segment spells the empty string, which is relative)
-IsAbs(abs, segs) == abs \/ (Len(segs) >= 2 /\ Head(segs) = "")
-Canon(refdir, abs, segs) == CleanFrom(IF IsAbs(abs, segs) THEN <<>> ELSE refdir, segs)
-
-IsClean(p) == \A i \in 1..Len(p) : p[i] \in Ordinary
-
-\* The directory of the referring template at depth d: /a, /a/b, ...
-RefDir(d) == IF d = 0 THEN <<>> ELSE IF d = 1 THEN <<"a">> ELSE <<"a", "b">>
-
----------------------------------------------------------------------------
-(* The probe protocol of one lookup: which paths reach Cache and Loader    *)
-(* (documented on Set.GetTemplate and Cache.Get: all candidates in the     *)
-(* cache first, then all candidates in the loader, first existing wins).   *)
-(* `hit` is 0 when no candidate exists in the loader, else the index of    *)
-(* the first extension whose candidate exists.                             *)
-
-Call(op, path, ext) == [op |-> op, path |-> path, ext |-> ext]
-
-ProbeCalls(c, exts, hit, dev, caches) ==
-  LET gets  == IF dev THEN <<>> ELSE [i \in 1..Len(exts) |-> Call("Get", c, exts[i])]
-      last  == IF hit = 0 THEN Len(exts) ELSE hit
-      exs   == [i \in 1..last |-> Call("Exists", c, exts[i])]
-      open  == IF hit = 0 THEN <<>> ELSE <<Call("Open", c, exts[hit])>>
-      put   == IF hit # 0 /\ caches /\ ~dev THEN <<Call("Put", c, exts[hit])>> ELSE <<>>
-  IN gets \o exs \o open \o put
 
 ---------------------------------------------------------------------------
 (* Generator machine *)
@@ -131,11 +80,5 @@ NoOpSegmentsIrrelevant ==
           IN Canon(refdir, IsAbs(obs.abs, obs.segs), stripped) = obs.canon
 
 EmitVec == (Done /\ Emit) => PrintT(<<"VEC", ToJson(obs)>>)
-
----------------------------------------------------------------------------
-(* Concrete spelling of a path, used by the trace specification. *)
-RECURSIVE JoinSegs(_)
-JoinSegs(p) == IF p = <<>> THEN "" ELSE IF Len(p) = 1 THEN p[1] ELSE p[1] \o "/" \o JoinSegs(Tail(p))
-PathString(p, ext) == "/" \o JoinSegs(p) \o ext
 
 =============================================================================
